@@ -28,7 +28,11 @@ RULE = ("seeded histories: constructor (ranges/pixel from {exact multiples, non-
 TRUSTED_BASE = [
     "Coq 8.16.1 kernel, vm_compute (no native_compute)",
     "PrimFloat primitives (add sub mul div ltb leb eqb of_uint63, Prim2SF) and their stdlib specification axioms",
-    "hand-written model Model/ImagerM.v of images.py constructor / setters / _create_mesh / fit",
+    "hand-written model Model/ImagerM.v of images.py constructor / setters / _create_mesh / fit, tied twice: by the "
+    "bit-exact correspondence and by harness/src2coq.py (imager_regen), which re-translates _num_pixels, __init__, the "
+    "three setters, _create_mesh and fit's updates from the current source on every run; trusted there: the translator's "
+    "reading of the Python subset (attribute assignments, tuples, + - * /, `/ 2` as halving, int(np.ceil(.)), "
+    "np.linspace(lo, hi, n, endpoint=False), calls of self methods / property setters inlined)",
     "model of numpy.linspace(lo, hi, n, endpoint=False) as i*((hi-lo)/n)+lo, np.ceil/int via Prim2SF",
     "harness: generator, float->hex printer, verdict parser, Fraction predicate",
 ]
@@ -39,6 +43,14 @@ ASSUMPTIONS = [
     "ranges with hi < lo and non-positive pixel sizes are outside the property's quantifier",
 ]
 COQ_DEPS = ["Corr/ImagerCorr.vo"]
+
+
+def extra_obligations(tier):
+    """Second tie (DESIGN 12.8): the geometry code of PersistenceImager is re-translated from the current
+    source into Gallina over the abstract numeric record and must be convertible with Model/ImagerM.v
+    (8 regenerated obligations, each `forall N state args, src_f = model_f` by reflexivity)."""
+    from .. import src2coq
+    return src2coq.check_regen(PID, "imager", src2coq.imager_regen, core.REPO)
 ULPS = 4
 EPS = Fraction(1, 2 ** 52)
 MAXPIX = 60          # keep meshes small: requested extent / pixel size stays below this
